@@ -1935,6 +1935,9 @@ func runL2(seed int64, n int, dir string, profName string) error {
 		fmt.Fprintf(cw, "%d probe every-spelling-of-readonly-never-writes\n", n+1)
 		fmt.Fprintf(iw, "%d %s\n", n+1, probeReadonlySpellings())
 		stats["probe_readonly_spellings"]++
+		fmt.Fprintf(cw, "%d probe read-only-table-after-a-write-that-matches-no-row\n", n+2)
+		fmt.Fprintf(iw, "%d %s\n", n+2, probeReadonlyAfterEmptyWrite())
+		stats["probe_readonly_empty_write"]++
 	}
 	if profName == "single" {
 		fmt.Fprintf(cw, "%d probe invalid-utf8-text-is-refused\n", n+1)
@@ -1972,6 +1975,16 @@ func runL2(seed int64, n int, dir string, profName string) error {
 		}
 	}
 	if profName == "tx" {
+		id := n + 10
+		for _, fn := range []string{"refresh", "vacuum"} {
+			for _, commit := range []bool{true, false} {
+				id++
+				end := map[bool]string{true: "commit", false: "rollback"}[commit]
+				fmt.Fprintf(cw, "%d probe s3db_%s-inside-a-transaction-then-%s\n", id, fn, end)
+				fmt.Fprintf(iw, "%d %s\n", id, probeFunctionInsideTransaction(fn, commit))
+				stats["probe_function_inside_tx"]++
+			}
+		}
 		for k := 0; k < 3; k++ {
 			fmt.Fprintf(cw, "%d probe tx-time-two-tables\n", n+1+k)
 			fmt.Fprintf(iw, "%d %s\n", n+1+k, probeTxTime())
